@@ -67,12 +67,12 @@ THEMES = [
            (3, 1): ["a*r", "if(r <= 1, a, a+r)", "a-r", ""],
            (3, 2): ["r", "2*r", "r^2", ""],
            (3, 3): ["a+b*r", "a*b", "a-b", ""]}),
-    Theme("eam", {1: "EAM-Embed", 2: "EAM-Density", 3: "Notes"},
+    Theme("eam", {1: "EAM-Embed", 2: "EAM-Density", 3: "Table-Form"},      # 3: a section the model does not use, headed by the bare prefix of the table-form sections
           {1: _SP, 2: _SP, 3: _SP},
           # values may contain ':' as well (a ${SECTION:KEY} place-holder): SECTION:KEY=VALUE is split at the first ':' and the first '='
           dict([((s, k), ["as.polynomial %d 1" % (10 * s + k), (">=0 as.polynomial %d 2 1" if s == 1 else ">=0 as.polynomial %d ${Tabulation:nr} 1") % (10 * s + k),
                           "as.polynomial %d 0 3" % (10 * s + k), ""])
-                for s in (1, 2) for k in (1, 2, 3)] + [((3, k), ["note", "another note", "third", ""]) for k in (1, 2, 3)]),
+                for s in (1, 2) for k in (1, 2, 3)] + [((3, k), ["note", "5$ per mole", "third", ""]) for k in (1, 2, 3)]),
           preamble="[Tabulation]\ntarget : setfl\nnr : 5\ncutoff : 2.0\nnrho : 4\ncutoff_rho : 3.0\n\n[Pair]\nAl-Al : as.polynomial 1 1\n",
           preamble_items=["Tabulation:target=setfl", "Tabulation:nr=5", "Tabulation:cutoff=2.0", "Tabulation:nrho=4", "Tabulation:cutoff_rho=3.0",
                           "Pair:Al-Al=as.polynomial 1 1"]),
@@ -121,10 +121,16 @@ class _Sec(object):
 SECTION = _Sec()
 
 
+def op_section(o):
+    """the section of an edit as typed: with the spelled-out variant a blank follows the section name ('Pair :A - B = ...'), as a
+    header '[Pair ]' may be written in the file"""
+    return SECTION[o["s"]] + (" " if o.get("ws") == 1 else "")
+
+
 def cli_args(ops):
     args = []
     for o in ops:
-        sk = "%s:%s" % (SECTION[o["s"]], key_text(o["s"], o["k"], o["ws"]))
+        sk = "%s:%s" % (op_section(o), key_text(o["s"], o["k"], o["ws"]))
         if o["kind"] == "ovr":
             args += ["-e", "%s=%s" % (sk, op_val_text(o))]
         elif o["kind"] == "rem":
@@ -148,10 +154,10 @@ def tabulate_text(text):
 
 
 def tabulate_api(text, ops):
-    ov = [ConfigParserOverrideTuple(SECTION[o["s"]], key_text(o["s"], o["k"], o["ws"]), op_val_text(o))
+    ov = [ConfigParserOverrideTuple(op_section(o), key_text(o["s"], o["k"], o["ws"]), op_val_text(o))
           for o in ops if o["kind"] == "ovr"]
-    ov += [ConfigParserOverrideTuple(SECTION[o["s"]], key_text(o["s"], o["k"], o["ws"]), None) for o in ops if o["kind"] == "rem"]
-    ad = [ConfigParserOverrideTuple(SECTION[o["s"]], key_text(o["s"], o["k"], o["ws"]), op_val_text(o))
+    ov += [ConfigParserOverrideTuple(op_section(o), key_text(o["s"], o["k"], o["ws"]), None) for o in ops if o["kind"] == "rem"]
+    ad = [ConfigParserOverrideTuple(op_section(o), key_text(o["s"], o["k"], o["ws"]), op_val_text(o))
           for o in ops if o["kind"] == "add"]
     try:
         cp = ConfigParser(io.StringIO(text), overrides=ov, additional=ad)
@@ -255,8 +261,10 @@ def _edit_one(job):
                     msg = "edits %s: output differs from the hand-edited file (%s vs %s)" % (cli_args(ops), got[0], wants[0][0])
                     clause = "differs-from-hand-edit"
                 out["bad"].append((clause, route, msg, ws_used))
-        # --list-items / --item-value on the edited document
-        if not hand["rej"]:
+        # --list-items / --item-value on the edited document (a document holding a value whose place-holder syntax is wrong - the
+        # note '5$ per mole' of an item nothing reads - tabulates, but has no listing: its values cannot be shown resolved)
+        listable = not any("$ " in val_text(s_["s"], it_["k"], it_["v"]) for s_ in hand["d"] for it_ in s_["items"]) if not hand["rej"] else False
+        if not hand["rej"] and listable:
             # the listing shows values with their place-holders resolved (the eam theme's preamble fixes Tabulation:nr = 5)
             resolved = lambda v: v.replace("${Tabulation:nr}", "5")
             exp = sorted(["%s:%s=%s" % (SECTION[s["s"]], key_text(s["s"], it["k"], 0), resolved(val_text(s["s"], it["k"], it["v"]))) for s in hand["d"] for it in s["items"]] + TH.preamble_items)
@@ -323,9 +331,9 @@ def c14_traces(run, tier, seed):
                 ops2.append(o)
             ops = ops2
             text = render_file(f)
-            ov = [ConfigParserOverrideTuple(SECTION[o["s"]], key_text(o["s"], o["k"], o["ws"]), op_val_text(o)) for o in ops if o["kind"] == "ovr"]
-            ov += [ConfigParserOverrideTuple(SECTION[o["s"]], key_text(o["s"], o["k"], o["ws"]), None) for o in ops if o["kind"] == "rem"]
-            ad = [ConfigParserOverrideTuple(SECTION[o["s"]], key_text(o["s"], o["k"], o["ws"]), op_val_text(o)) for o in ops if o["kind"] == "add"]
+            ov = [ConfigParserOverrideTuple(op_section(o), key_text(o["s"], o["k"], o["ws"]), op_val_text(o)) for o in ops if o["kind"] == "ovr"]
+            ov += [ConfigParserOverrideTuple(op_section(o), key_text(o["s"], o["k"], o["ws"]), None) for o in ops if o["kind"] == "rem"]
+            ad = [ConfigParserOverrideTuple(op_section(o), key_text(o["s"], o["k"], o["ws"]), op_val_text(o)) for o in ops if o["kind"] == "add"]
             # the API route applies the list as given; the spec's merge rule is the CLI's: observe through the CLI listing
             got = query_cli(text, cli_args(ops), d, ["--list-items"])
             run.evaluations += 1
